@@ -22,6 +22,10 @@ pub fn check(tier: Tier) -> Check {
         Part::new("C03/long", json!({"huge": true, "pairs": tier == Tier::Thorough}), 0, tier.pick(50, 300)),
         // the stream object lives across connect() -> run(): bytes behind the CONNACK in the same read
         Part::new("C03/handover", json!({}), 0, 60),
+        // size-scale relations: a big packet whose total length, or whose part still outstanding at a
+        // read boundary, is a power of two (2^9 .. 2^21) give or take one - and 512 bytes beyond one;
+        // then silence / end-of-stream (whatever the reader does in steps of a round size)
+        Part::new("C03/pow2", json!({"max_k": tier.pick(21, 23)}), 0, 300),
         // long bursts: many small packets without a pause (a yield after N items must come with a wakeup)
         Part::new("C03/burst", json!({"max": tier.pick(1025, 16385)}), 0, 120),
         // what the reader does with its buffer after a big packet
@@ -339,6 +343,78 @@ fn handover(name: String, params: Value) -> Scenario {
     })
 }
 
+/// One inbound QoS 1 PUBLISH of `total` bytes, optionally a small packet in front, delivered whole or
+/// cut so that exactly 2^k + d bytes of it are outstanding at the cut; nothing behind it (silence), or
+/// end-of-stream. The PUBACK and the stream item tell when the client saw it.
+fn pow2(name: String, params: Value) -> Scenario {
+    Box::new(move |chz, ex| {
+        let max_k = params["max_k"].as_u64().unwrap_or(21) as usize;
+        let ks: Vec<usize> = (9..=max_k).collect();
+        let k = ks[chz.choose(ks.len())];
+        let d = [-1i64, 0, 1][chz.choose(3)];
+        // how the size relates to 2^k: the packet itself is 2^k + d / 512 + 2^k + d / 1024 + 2^k + d
+        // bytes long and arrives in one read; or it is 1.5 * 2^k + 3 long and cut with 2^k + d outstanding
+        let shape = chz.choose(4);
+        let eof = chz.choose(2) == 1;
+        let lead = chz.choose(2) == 1;
+        let p2 = 1usize << k;
+        let total = match shape {
+            0 => (p2 as i64 + d) as usize,
+            1 => (512 + p2 as i64 + d) as usize,
+            2 => (1024 + p2 as i64 + d) as usize,
+            _ => p2 + p2 / 2 + 3,
+        };
+        let mut sys = Sys::new("C03", &name, chz);
+        sys.params = params.clone();
+        let Some(sub_id) = setup(&mut sys) else { return sys.report(ex, &[]); };
+        // a PUBLISH of exactly `total` bytes
+        let mut plen = total.saturating_sub(20);
+        let mut pkt;
+        let mut tries = 0;
+        loop {
+            pkt = SPacket::Publish {
+                dup: false,
+                qos: 1,
+                retain: false,
+                topic: "in/t".into(),
+                pid: Some(77),
+                props: vec![Prop::var(P_SUBSCRIPTION_ID, sub_id)],
+                payload: vec![0x6b; plen],
+            };
+            let l = pkt.encode().len();
+            tries += 1;
+            if l == total || tries > 6 {
+                break;
+            }
+            if l > total { plen -= l - total } else { plen += total - l }
+        }
+        let mut bytes = vec![];
+        let mut packets = vec![];
+        if lead {
+            let p = SPacket::Pingresp;
+            bytes.extend(p.encode());
+            packets.push((bytes.len(), p));
+        }
+        let start = bytes.len();
+        bytes.extend(pkt.encode());
+        packets.push((bytes.len(), pkt));
+        let cuts: Vec<usize> = if shape == 3 {
+            let c = bytes.len() as i64 - (p2 as i64 + d);
+            if c > start as i64 && (c as usize) < bytes.len() { vec![c as usize] } else { vec![] }
+        } else {
+            vec![]
+        };
+        deliver_cut(&mut sys, &bytes, &cuts, &packets, true);
+        if eof && !sys.dead {
+            sys.apply(Ev::Eof);
+        }
+        sys.finish();
+        sys.m.hits.push("packet-split");
+        sys.events = vec![format!("PUBLISH of {} bytes (k={} d={} shape={}), cuts {:?}, lead={}, then {}", total, k, d, shape, cuts, lead, if eof { "end-of-stream" } else { "silence" })];
+        sys.report(ex, &["packet-split"]);
+    })
+}
+
 pub fn scenario(name: &str, params: &Value) -> Scenario {
     let params = params.clone();
     let name = name.to_string();
@@ -350,6 +426,9 @@ pub fn scenario(name: &str, params: &Value) -> Scenario {
     }
     if name == "C03/handover" {
         return handover(name, params);
+    }
+    if name == "C03/pow2" {
+        return pow2(name, params);
     }
     if name == "C03/short" {
         let max_len = params["max_len"].as_u64().unwrap_or(17) as usize;
